@@ -2012,3 +2012,6 @@ func (p *Prog) ExprAt(pos token.Pos) string {
 	}
 	return ""
 }
+
+// SizeofType returns the size in bytes of t under the sizes of the loaded program's target platform.
+func (p *Prog) SizeofType(t types.Type) int64 { return p.sizeof(t) }
